@@ -106,10 +106,18 @@ pub mod collections {
             match self {
                 SimHasher::Sip(h) => h.write(bytes),
                 SimHasher::Fold(s, _) => {
+                    // Folded 32 bits at a time (the upper half only when it is set), so that a
+                    // small integer still hashes to itself while a pair of indices written as
+                    // one word, such as `[0, i]`, does not leave the low bits constant.
                     for chunk in bytes.chunks(8) {
                         let mut w = [0u8; 8];
                         w[..chunk.len()].copy_from_slice(chunk);
-                        *s = s.wrapping_mul(1_000_003).wrapping_add(u64::from_le_bytes(w));
+                        let w = u64::from_le_bytes(w);
+                        let (lo, hi) = (w & 0xFFFF_FFFF, w >> 32);
+                        *s = s.wrapping_mul(1_000_003).wrapping_add(lo);
+                        if hi != 0 {
+                            *s = s.wrapping_mul(1_000_003).wrapping_add(hi);
+                        }
                     }
                 }
             }
